@@ -81,7 +81,8 @@ func runC07(c *core.Ctx) {
 		c.Unknown("R1", "anchor", "-", "type BufferedChannelQueue not found")
 		return
 	}
-	// all functions belonging to BufferedChannelQueue (methods + closures)
+	// all functions that may touch a BufferedChannelQueue: its methods and their closures, and any other
+	// function of the package that mentions the pool field (e.g. a worker body written as a closure of the constructor)
 	var bqFuncs []*ssa.Function
 	for _, f := range p.Funcs {
 		root := f
@@ -89,6 +90,26 @@ func runC07(c *core.Ctx) {
 			root = root.Parent()
 		}
 		if root.Signature.Recv() != nil && core.TypeName(root.Signature.Recv().Type()) == "BufferedChannelQueue" {
+			bqFuncs = append(bqFuncs, f)
+			continue
+		}
+		if root.Pkg != p.Fpgo {
+			continue
+		}
+		touches := false
+		core.Instrs(f, func(ins ssa.Instruction) {
+			switch x := ins.(type) {
+			case *ssa.Call:
+				if len(x.Call.Args) > 0 && core.FieldKey(x.Call.Args[0]) == "BufferedChannelQueue.pool" {
+					touches = true
+				}
+			case *ssa.FieldAddr:
+				if core.FieldKey(x.X) == "BufferedChannelQueue.pool" {
+					touches = true
+				}
+			}
+		})
+		if touches {
 			bqFuncs = append(bqFuncs, f)
 		}
 	}
@@ -134,16 +155,17 @@ func runC07(c *core.Ctx) {
 		c.Unknown("R2", "BufferedChannelQueue.Offer", "-", "method not found")
 	} else {
 		isPoolCount := func(v ssa.Value, base string) (*ssa.Call, bool) {
-			call, ok := core.Resolve(v).(*ssa.Call)
+			call, ok := core.ResolveIP(p, v).(*ssa.Call)
 			if !ok {
 				return nil, false
 			}
 			g := core.Callee(&call.Call)
-			return call, g != nil && core.FuncName(g) == "fpgo.LinkedListQueue.Count" && core.FieldKey(call.Call.Args[0]) == "BufferedChannelQueue.pool" && core.FieldBase(call.Call.Args[0]) == base
+			return call, g != nil && core.FuncName(g) == "fpgo.LinkedListQueue.Count" && core.FieldKey(call.Call.Args[0]) == "BufferedChannelQueue.pool" && core.FieldBase(call.Call.Args[0]) == call.Parent().Params[0].Name()
 		}
 		base := offer.Params[0].Name()
 		nChan, nIns := 0, 0
-		core.Instrs(offer, func(ins ssa.Instruction) {
+		// Offer and the helpers extracted from it
+		core.InstrsGroup(p, offer, func(fn *ssa.Function, ins ssa.Instruction) {
 			call, ok := ins.(*ssa.Call)
 			if !ok || len(call.Call.Args) == 0 {
 				return
@@ -156,13 +178,13 @@ func runC07(c *core.Ctx) {
 			case core.FieldKey(call.Call.Args[0]) == "BufferedChannelQueue.blockingQueue" && chanSends(g):
 				nChan++
 				okG, detail := false, "direct channel offer is not dominated by pool.Count()==0: an item could overtake items waiting in the overflow list (FIFO broken)"
-				for _, m := range core.EdgeCmps(ins.Block()) {
+				for _, m := range core.CtxCmps(p, ins.Block()) {
 					if m.Op != token.EQL {
 						continue
 					}
 					cnt, isCnt := isPoolCount(m.X, base)
 					if isCnt && core.IsIntConst(m.Y, 0) {
-						if li.At[cnt].Has(base+".lock", "W") && li.At[ins].Has(base+".lock", "W") && !unlockBetween(offer, cnt, ins, base+".lock") {
+						if li.At[cnt].Has(cnt.Parent().Params[0].Name()+".lock", "W") && li.At[ins].Has(fn.Params[0].Name()+".lock", "W") && !unlockBetweenIP(p, offer, cnt, ins, ".lock") {
 							okG, detail = true, "on the pool.Count()==0 edge, count read and offer inside one exclusive hold"
 						} else {
 							detail = "pool.Count()==0 test and channel offer are not inside one exclusive lock hold"
@@ -174,7 +196,7 @@ func runC07(c *core.Ctx) {
 				nIns++
 				// R3
 				okB, detail := false, "pool insertion is not dominated by poolCount < bufferSizeMaximum: the overflow list is unbounded"
-				for _, m := range core.EdgeCmps(ins.Block()) {
+				for _, m := range core.CtxCmps(p, ins.Block()) {
 					x, y, op := m.X, m.Y, m.Op
 					if op == token.GTR { // max > count
 						x, y, op = y, x, token.LSS
@@ -190,7 +212,7 @@ func runC07(c *core.Ctx) {
 							if len(s.Instrs) > 0 {
 								if r, ok := s.Instrs[len(s.Instrs)-1].(*ssa.Return); ok && s != ins.Block() && !s.Dominates(ins.Block()) {
 									rv := core.RetVals(r)
-									if core.GlobalName(rv[len(rv)-1]) == "ErrQueueIsFull" {
+									if core.GlobalName(rv[len(rv)-1]) == "ErrQueueIsFull" && returnedToRoot(p, offer, r) {
 										full = true
 									}
 								}
@@ -208,14 +230,14 @@ func runC07(c *core.Ctx) {
 					c.Fail("R2", "BufferedChannelQueue.Offer/pool-insert-end", p.InstrPos(ins), "producer inserts with pool."+g.Name()+"(): not at the tail, FIFO broken")
 				}
 				// R4 insert path: a wake-up follows on every path
-				min, _ := core.PathCountFrom(ins.Block(), ins, func(i ssa.Instruction) int {
+				min := core.MinAfterIP(p, offer, ins, func(i ssa.Instruction) int {
 					if cc, ok := i.(*ssa.Call); ok && len(cc.Call.Args) > 0 && core.FieldKey(cc.Call.Args[0]) == "BufferedChannelQueue.loadWorkerCh" {
 						if gg := core.Callee(&cc.Call); gg != nil && chanSends(gg) {
 							return 1
 						}
 					}
 					return 0
-				}, nil)
+				})
 				c.Check(min >= 1, "R4", "BufferedChannelQueue.Offer/after-insert", p.InstrPos(ins), "loader wake-up posted after the insertion on every path", "no loader wake-up after inserting into the overflow list: the item waits until some consumer call happens to wake the loader")
 			}
 		})
@@ -569,21 +591,18 @@ func c07wrapperShape(p *core.Prog, f *ssa.Function, blocking bool, dir types.Cha
 	recv := ssa.Value(f.Params[0])
 	// collect returns with the sentinel names of their error operand, and the conditions they sit under
 	var rets []retInfo
-	core.Instrs(f, func(ins ssa.Instruction) {
-		if r, ok := ins.(*ssa.Return); ok {
-			rv := core.RetVals(r)
-			e := rv[len(rv)-1]
-			name := core.GlobalName(e)
-			if name == "" {
-				if core.IsNilConst(e) {
-					name = "nil"
-				} else {
-					name = "?"
-				}
+	for _, rc := range core.ReturnCases(f) {
+		e := rc.Vals[len(rc.Vals)-1]
+		name := core.GlobalName(e)
+		if name == "" {
+			if core.IsNilConst(e) {
+				name = "nil"
+			} else {
+				name = "?"
 			}
-			rets = append(rets, retInfo{r, name})
 		}
-	})
+		rets = append(rets, retInfo{rc.Ret, name, rc})
+	}
 	var sel *ssa.Select
 	var bareOp ssa.Instruction
 	core.Instrs(f, func(ins ssa.Instruction) {
@@ -650,9 +669,9 @@ func c07wrapperShape(p *core.Prog, f *ssa.Function, blocking bool, dir types.Cha
 		return false, fmt.Sprintf("unexpected number of select arms: %d", len(sel.States))
 	}
 	// returns by arm: find `extract sel #0 == k` conditions
-	armOf := func(r *ssa.Return) int {
+	armOf := func(rc core.RetCase) int {
 		arm := -2
-		for _, m := range core.EdgeCmps(r.Block()) {
+		for _, m := range rc.Cmps() {
 			ex, ok := m.X.(*ssa.Extract)
 			if !ok || ex.Tuple != ssa.Value(sel) || ex.Index != 0 {
 				continue
@@ -668,7 +687,7 @@ func c07wrapperShape(p *core.Prog, f *ssa.Function, blocking bool, dir types.Cha
 		if arm == -2 {
 			// not on any ==k edge: default (non-blocking) or last arm (blocking)
 			neq := map[int]bool{}
-			for _, m := range core.EdgeCmps(r.Block()) {
+			for _, m := range rc.Cmps() {
 				if ex, ok := m.X.(*ssa.Extract); ok && ex.Tuple == ssa.Value(sel) && ex.Index == 0 && m.Op == token.NEQ {
 					if k, isK := m.Y.(*ssa.Const); isK {
 						neq[int(k.Int64())] = true
@@ -689,7 +708,7 @@ func c07wrapperShape(p *core.Prog, f *ssa.Function, blocking bool, dir types.Cha
 		return arm
 	}
 	for _, r := range rets {
-		arm := armOf(r.r)
+		arm := armOf(r.rc)
 		switch {
 		case arm == chanArm:
 			if r.err != "nil" && r.err != closedErr {
@@ -712,7 +731,7 @@ func c07wrapperShape(p *core.Prog, f *ssa.Function, blocking bool, dir types.Cha
 		okClosed := false
 		for _, r := range rets {
 			if r.err == closedErr {
-				for _, cnd := range core.EdgeFacts(r.r.Block()) {
+				for _, cnd := range r.rc.Facts {
 					n := core.Normalize(cnd)
 					if ex, ok := n.V.(*ssa.Extract); ok && ex.Tuple == ssa.Value(sel) && ex.Index == 1 && !n.True {
 						okClosed = true
@@ -730,6 +749,7 @@ func c07wrapperShape(p *core.Prog, f *ssa.Function, blocking bool, dir types.Cha
 type retInfo struct {
 	r   *ssa.Return
 	err string // global name, "nil", or "?"
+	rc  core.RetCase
 }
 
 // retUnderOk: some return with sentinel err sits on the false edge of extract #idx of tuple-producing instruction t.
@@ -738,7 +758,7 @@ func retUnderOk(rets []retInfo, t ssa.Value, idx int, err string) bool {
 		if r.err != err {
 			continue
 		}
-		for _, cnd := range core.EdgeFacts(r.r.Block()) {
+		for _, cnd := range r.rc.Facts {
 			n := core.Normalize(cnd)
 			if ex, ok := n.V.(*ssa.Extract); ok && ex.Tuple == t && ex.Index == idx && !n.True {
 				return true
